@@ -92,7 +92,7 @@ func bytesDiffer(a, b []byte) bool {
 }
 
 var tamperNames = []string{"payload-byte", "payload-length", "log-id", "next-replace", "next-remove", "next-swap", "next-add",
-	"refs-replace", "refs-remove", "refs-swap", "refs-add", "version", "clock-id-bytes", "clock-id-length", "clock-time", "key", "sig", "clock-id-emptied", "key-y-coordinate"}
+	"refs-replace", "refs-remove", "refs-swap", "refs-add", "version", "clock-id-bytes", "clock-id-length", "clock-time", "key", "sig", "clock-id-emptied", "key-y-coordinate", "key-overwritten-in-place"}
 
 // refSigningBytes: the documented signing bytes of an entry (ipfs-log: JSON of hash=null, id, payload, next, refs,
 // v, clock{id,time}), built independently of the code under test.
@@ -236,6 +236,11 @@ func H_C07() {
 		}
 	case 18: // the key's Y coordinate altered, X and the parity of Y kept: not a point of the curve any more
 		x.SetKey(vx.AlterKeyY(e.GetKey()))
+	case 19: // the key bytes overwritten in place with another identity's key (the copy shares them with the entry
+		// that the same provider verified a moment ago)
+		kb := x.GetKey()
+		vx.Assume(len(kb) == len(ids[1].PublicKey))
+		copy(kb, ids[1].PublicKey)
 	case 16: // the signature of another (valid) entry
 		o, err := entry.CreateEntryWithIO(ctx, api, ids[0], &entry.Entry{Payload: []byte("other"), LogID: logID, Clock: entry.NewLamportClock(clockID, t)}, nil, io)
 		vx.Assume(err == nil)
